@@ -366,10 +366,9 @@ def Expr.ok : Expr → Prop
   | .binding n v _ b a => solidT n ∧ v.ok ∧ TrivOk b ∧ TrivOk a
   | .paren v _ _ _ _ b a => v.ok ∧ TrivOk b ∧ TrivOk a
   | .app n x _ fa b a => n.ok ∧ x.ok ∧ (∀ c ∈ fa, cOk c) ∧ TrivOk b ∧ TrivOk a
-  -- `with` from well-formed trees: the interstitial lists hold layout markers only
+  -- `with` / `assert` from well-formed trees: the interstitial lists hold layout markers only
   | .wth env body awc _ asc b a => env.ok ∧ body.ok ∧ cm awc = [] ∧ asc = [] ∧ TrivOk b ∧ TrivOk a
-  -- `assert` is outside the theorems' fragment (`Cst.wf`)
-  | .asrt .. => False
+  | .asrt cond body aac bsc b a => cond.ok ∧ body.ok ∧ cm aac = [] ∧ cm bsc = [] ∧ TrivOk b ∧ TrivOk a
 def allOk : List Expr → Prop
   | [] => True
   | e :: rest => e.ok ∧ allOk rest
@@ -522,7 +521,7 @@ theorem ok_after {e : Expr} (h : e.ok) : TrivOk e.after := by
   | paren v lg tg lb tb b a => exact h.2.2
   | app n x g fa b a => exact h.2.2.2.2
   | wth e bd c g s b a => exact h.2.2.2.2.2
-  | asrt c bd x y b a => exact h.elim
+  | asrt c bd x y b a => exact h.2.2.2.2.2
 
 theorem ok_before {e : Expr} (h : e.ok) : TrivOk e.before := by
   cases e with
@@ -533,7 +532,7 @@ theorem ok_before {e : Expr} (h : e.ok) : TrivOk e.before := by
   | paren v lg tg lb tb b a => exact h.2.1
   | app n x g fa b a => exact h.2.2.2.1
   | wth e bd c g s b a => exact h.2.2.2.2.1
-  | asrt c bd x y b a => exact h.elim
+  | asrt c bd x y b a => exact h.2.2.2.2.1
 
 theorem leafBefore_nil' (k : LeafKind) (t : Text) (i : Nat) (inl : Bool) : leafBefore k t [] i inl = [] := by
   unfold leafBefore; split
@@ -728,7 +727,7 @@ theorem rebuildAP_lex : (e : Expr) → e.ok → ∀ (na : Bool) (i : Nat) (b : B
       | paren v lg tg lb tb b a => exact hv.2.2
       | app n x g fa b a => exact hv.2.2.2.2
       | wth e bd c g s b a => exact hv.2.2.2.2.2
-      | asrt c bd x y b a => exact hv.elim
+      | asrt c bd x y b a => exact hv.2.2.2.2.2
     have hbt := bindingTailP_lex (trivOk_append hva (ite_nil_ok na ha)) i
     have hi := indentP_lex i b
     simp only [Expr.rebuildAP, Expr.lexOut]
@@ -844,7 +843,33 @@ theorem rebuildAP_lex : (e : Expr) → e.ok → ∀ (na : Bool) (i : Nat) (b : B
         (solid_tokc ';' (by decide) (solid_wsc _ solid_nil))) hbody.2) i b
     refine ⟨?_, hat.2⟩
     rw [hat.1]; simp [henv.1, hbody.1, cm_ite_nil]
-  | .asrt cond body aac bsc before after, hok, na, i, b => hok.elim
+  | .asrt cond body aac bsc before after, hok, na, i, b => by
+    obtain ⟨hc, hbd, _, _, hb, ha⟩ := hok
+    have ihc := rebuildAP_lex cond hc false
+    have ihb := rebuildAP_lex body hbd false i false
+    simp only [Expr.rebuildAP, Expr.lexOut]
+    generalize (triviaForcesNewline aac || !inlineIsAbsorbed (concat (cond.rebuildAP false i true))) = onNL
+    have hcond : lexOf (if onNL = true then cond.rebuildAP false (i + 2) false else cond.rebuildAP false i true) =
+          cond.lexOut false ∧
+        Solid (if onNL = true then cond.rebuildAP false (i + 2) false else cond.rebuildAP false i true) := by
+      split
+      · exact ihc _ _
+      · exact ihc _ _
+    revert hcond
+    generalize (if onNL = true then cond.rebuildAP false (i + 2) false else cond.rebuildAP false i true) = condP
+    intro hcond
+    generalize (formatInterstitialTriviaWithSeparator aac (asrtLayout onNL i) (if onNL = true then i + 2 else i)
+      (includeIndent := false) (stripLeadingNLAfter := some (concat condP))) = r1
+    generalize (if bsc.isEmpty = true then (([], []) : Text × Text)
+      else formatInterstitialTriviaWithSeparator bsc { onNewline := true, blankLine := false, indent := some i } i
+        (inlineSep := [' ']) (stripLeadingNLAfter := some (concat condP))) = r2
+    have hat := addTriviaP_lex (core := [FP.tok kwAssert, FP.ws (r1.1 ++ r1.2)] ++ condP ++ [FP.ws (r2.1 ++ r2.2), FP.tok [';']])
+      hb (ite_nil_ok na ha)
+      (solid_append (solid_append (solid_cons (p := FP.tok kwAssert) solidT_kwAssert (solid_wsc _ solid_nil)) hcond.2)
+        (solid_wsc _ (solid_tok (solidT_lit ';' (by decide))))) i b
+    refine ⟨?_, solid_append (solid_append hat.2 (solid_wsc _ solid_nil)) ihb.2⟩
+    simp only [lexOf_append, hat.1, lexOf_ws, lexOf_nil, ihb.1]
+    simp [hcond.1, cm_ite_nil]
 theorem rebuildAllP_lex : (es : List Expr) → allOk es → ∀ (i : Nat) (b : Bool),
     ((rebuildAllP es i b).map lexOf).flatten = lexOutAll es ∧ ∀ x ∈ rebuildAllP es i b, Solid x
   | [], _, i, b => ⟨rfl, by intro x hx; cases hx⟩
